@@ -191,7 +191,12 @@ RULE = (
     "each exported, re-read raw, reopened, exported again. confocal: kymographs and scans from generated info waves "
     "(both axis orders, 1-5 frames, dead time, lead-in) with photon counts below / at / above each dtype limit, all "
     "dtype x clip combinations, derived objects (frame slices, pixel crops incl. down to one pixel, time slices, "
-    "crop_by_distance, flip, position down-sampling with mean -> fractional values); metadata 'scan count' 0 (not stored) or the true "
+    "crop_by_distance, flip, position down-sampling with mean -> fractional values, calibrate_to_kbp) and derivations of derivations: every ordered "
+    "pair of the six kymograph operations, triples around binning, random chains of up to three steps - the pixel size in the resolution tags is "
+    "judged against the acquisition record x the binning factors of the whole chain, line time and centre point against the record, and the export "
+    "after a final flip / calibrate_to_kbp against the export of the object before that step (all tags and description entries equal, pixels "
+    "mirrored / equal); camera TIFFs without JSON metadata (text / empty description, '{}'); the stack's own start / stop before and after the "
+    "round trip; metadata 'scan count' 0 (not stored) or the true "
     "count; every object exported by an untouched twin as its very first operation, by that twin again, and after all queries "
     "(image, num_frames, frame ranges, pixel size) were answered - all files judged by the same clauses on every page. mixin: export_tiff driven "
     "directly with values from the boundary set of every dtype (negative, fractional, 255/256, 65535/65536, 2^24+-1, "
@@ -215,7 +220,8 @@ TRUSTED = [
 ASSUMPTIONS = [
     "kymographs have at least 2 pixels per line when built (pylake squeezes singleton axes of the image)",
     "'Exposure time (ms)' survives the float round trip round(1e6*(ns*1e-6)) (asserted on every page; exact below ~1e15 ns)",
-    "scan-axes metadata written for a cropped / down-sampled confocal object is that of the source object (pylake writes self._metadata.scan_axes unchanged); only the TIFF resolution tags follow the derived pixel size — recorded as observation, not asserted beyond that",
+    "scan-axes metadata written for a cropped / down-sampled confocal object is that of the source object (pylake writes self._metadata.scan_axes unchanged); the TIFF resolution tags follow the derived pixel size: acquisition pixel size x every position binning factor of the derivation chain (selections, mirroring, another position unit leave it alone)",
+    "ImageStack.start is the start of the first frame, ImageStack.stop the stop of the last frame - with or without dead time is not fixed by the text, either is accepted",
     "scans have at least 2 pixels along both axes when built (pylake squeezes singleton axes)",
     "pixel values of generated confocal images stay below 2^53 (exact in float64)",
     "public route of a mixin cast: low_level.create_confocal_object accepts float photon counts; the route is used only when get_image() of that scan returns exactly the case's values (otherwise '?')",
@@ -387,6 +393,10 @@ def impl_stack(case):
                 for op in case["prog"]:
                     cur = apply_stack_op(cur, op)
                 obs["src_pixelsize"] = cur.pixelsize_um
+                try:  # the selection's own start / stop (a selection that cannot be exported may have none: judged only after a successful export)
+                    obs["src_bounds"] = (int(cur.start), int(cur.stop))
+                except Exception as e:
+                    obs["src_bounds"] = repr(e)
                 cur.export_tiff(p1)
             except Unreachable as e:
                 obs["unreachable"] = str(e)
@@ -405,6 +415,7 @@ def impl_stack(case):
                     obs["re_exp"] = [(int(a), int(b)) for a, b in re1.frame_timestamp_ranges(include_dead_time=False)]
                     obs["re_pixelsize"] = re1.pixelsize_um
                     obs["re_frames"] = int(re1.num_frames)
+                    obs["re_bounds"] = (int(re1.start), int(re1.stop))
                     re1.export_tiff(p2)
                 finally:
                     re1.close()
@@ -560,6 +571,14 @@ def oracle_stack(case, ia):
         return f"reopen: frame ranges with dead time {obs['re_dead'][:3]} != exported {[(a, b) for a, b, _ in exp][:3]}"
     if obs["re_exp"] != [(a, a + e) for a, _, e in exp]:
         return f"reopen: exposure ranges {obs['re_exp'][:3]} != exported {[(a, a + e) for a, _, e in exp][:3]}"
+    # the stack's own start / stop: start of the first, stop of the last selected frame (the text does not say whether with or
+    # without dead time: either), the same before and after the round trip
+    for who, key in (("the exported selection", "src_bounds"), ("the reopened file", "re_bounds")):
+        b = obs.get(key)
+        if not isinstance(b, tuple) or b[0] != exp[0][0] or b[1] not in (exp[-1][1], exp[-1][0] + exp[-1][2]):
+            return f"timestamps: {who} reports start / stop {b}, its frames span {exp[0][0]} .. {exp[-1][0] + exp[-1][2]} (exposure) / {exp[-1][1]} (with dead time)"
+    if obs["src_bounds"] != obs["re_bounds"]:
+        return f"timestamps: start / stop {obs['src_bounds']} before, {obs['re_bounds']} after the round trip"
     want_px = None if spec["pixelsize_nm"] is None else [spec["pixelsize_nm"] / 1000] * 2
     if not same_sizes(obs["re_pixelsize"], want_px) or not same_sizes(obs["src_pixelsize"], want_px):
         return f"calibration: pixel size {obs['re_pixelsize']} after the round trip, {want_px} in the source"
@@ -580,7 +599,15 @@ def oracle_stack(case, ia):
 # ------------------------------------------------------------------ confocal kind
 
 DT_NP = {"u8": np.uint8, "u16": np.uint16, "f32": np.float32}
+# the centre point of the acquisition record that builders_confocal writes (read off the record itself)
+CENTER_POINT_UM = json.loads(bc.confocal_json([(0, 2, 100.0)]))["value0"]["scan volume"]["center point (um)"]
 LIMITS = {"u8": (0, 255), "u16": (0, 65535), "f32": (-Fraction((2**24 - 1) * 2**104), Fraction((2**24 - 1) * 2**104))}
+
+
+def clip_kw(case):
+    """clipping as the user asks for it: `clip=True` when requested, and NO argument at all otherwise ("refusing ... unless
+    clipping is requested": the default of the public call must refuse); the explicit clip=False is passed by the other exports"""
+    return {"clip": True} if case["clip"] else {}
 
 
 def build_confocal(case):
@@ -612,7 +639,24 @@ def apply_derive(obj, op):
         return obj.flip()
     if k == "down":  # kymo.downsampled_by(position_factor, reduce)
         return obj.downsampled_by(position_factor=op[1], reduce=np.mean if op[2] == "mean" else np.sum)
+    if k == "kbp":  # kymo.calibrate_to_kbp(length): another unit for positions, the same pixels of the same size
+        return obj.calibrate_to_kbp(float(Fraction(op[1])))
     raise ValueError(k)
+
+
+def reference_pixelsize(case):
+    """the size of one exported pixel in um per scan axis (ordered by spatial axis, as pixelsize_um lists them), from the case
+    alone: the 'pixel size (nm)' of the scan-axes record; selecting frames / lines / pixels, mirroring and re-calibrating
+    positions leave the size of a pixel alone, binning n pixels along the position axis makes every pixel n times as large.
+    Walks the WHOLE chain of derivations: what an earlier step established must survive every later one."""
+    axes = [(case.get("fast", 0), Fraction(case["pixel_nm"][0]) / 1000)]
+    if case["kind"] == "scan":
+        axes.append((case["slow"], Fraction(case["pixel_nm"][1]) / 1000))
+    sizes = [sz for _, sz in sorted(axes)]
+    for op in case["derive"]:
+        if op[0] == "down":
+            sizes[0] *= op[1]
+    return [float(x) for x in sizes]
 
 
 def pixel_table(case, colour):
@@ -731,13 +775,27 @@ def _impl_confocal(case):
                 twin = build_confocal(case)
                 for op in case["derive"]:
                     twin = apply_derive(twin, op)
-                twin.export_tiff(p0, dtype=DT_NP[case["dtype"]], clip=case["clip"])
+                twin.export_tiff(p0, dtype=DT_NP[case["dtype"]], **clip_kw(case))
                 obs["raw0"] = read_raw(p0)
                 twin.export_tiff(p0b, dtype=DT_NP[case["dtype"]], clip=case["clip"])
                 obs["raw0b"] = read_raw(p0b)
             except Exception as e:
                 obs["outcome0"] = errname(e)
                 obs["error0"] = repr(e)
+            # a derivation chain that ends in a step which only re-presents the same acquisition (mirror image, another position
+            # unit): the object BEFORE that step is exported as well - everything but the order of the pixels must be the same
+            if case["derive"] and case["derive"][-1][0] in SAME_DATA_STEPS:
+                pp = fresh("cp")
+                try:
+                    prev = build_confocal(case)
+                    for op in case["derive"][:-1]:
+                        prev = apply_derive(prev, op)
+                    prev.export_tiff(pp, dtype=DT_NP[case["dtype"]], clip=case["clip"])
+                    obs["raw_prev"] = read_raw(pp)
+                except Exception as e:
+                    obs["error_prev"] = repr(e)
+                finally:
+                    rm(pp)
             try:
                 obj.export_tiff(p1, dtype=DT_NP[case["dtype"]], clip=case["clip"])
             except Exception as e:
@@ -756,6 +814,7 @@ def _impl_confocal(case):
                     obs["re_image"] = np.array(re1.get_image())
                     obs["re_dead"] = [(int(a), int(b)) for a, b in re1.frame_timestamp_ranges(include_dead_time=True)]
                     obs["re_exp"] = [(int(a), int(b)) for a, b in re1.frame_timestamp_ranges(include_dead_time=False)]
+                    obs["re_start"], obs["re_stop"] = int(re1.start), int(re1.stop)
                     re1.export_tiff(p2)
                 finally:
                     re1.close()
@@ -787,6 +846,8 @@ def impl_confocal(case):
     if "raw1" not in obs:
         return r + ["not-written"] * (5 - len(r))
     raw = obs["raw1"]
+    if not raw:  # export_tiff returned without writing a single page: an answer (judged by the oracle), not a crash of the harness
+        return r + ["no-pages"] * (5 - len(r))
     dt = raw[0]["dt"]
     a2 = dt if case["kind"] == "kymo" else enc_list([ord(ch) for ch in dt])
     ms = written_ms(raw)
@@ -943,6 +1004,15 @@ def check_written(case, obs, raw1, want, ref_times):
         if case["kind"] == "kymo":
             if d.get("Start pixel timestamp (ns)") != exp[0][0] or d.get("Stop pixel timestamp (ns)") != exp[0][1]:
                 return "metadata: start/stop pixel timestamps differ from the line ranges"
+            # the line time is a property of the acquisition (start-to-start distance of scan lines): no derivation used here
+            # (time slices, position crops / bins, mirroring, another position unit) changes it while two lines are left
+            if (obs.get("lines") or 0) >= 2 and lay["lines"] >= 2:
+                lt_want = (lay["P"] * lay["k"] + lay["dead"]) * case["dt"] * 1e-9
+                if not isinstance(d.get("Line time (s)"), float) or not math.isclose(d["Line time (s)"], lt_want, rel_tol=1e-9):
+                    return f"metadata: line time {d.get('Line time (s)')} != {lt_want} (page {i}, derivation {case['derive']})"
+        # where the scan was taken: never changed by a selection
+        if d.get("Center point (um)") != CENTER_POINT_UM:
+            return f"metadata: centre point {d.get('Center point (um)')} != {CENTER_POINT_UM} of the acquisition record (page {i})"
         # the pixel dwell time is a property of the acquisition: frame slices and pixel crops of a scan do not change it
         # (a scan left with a single pixel along the fast axis has none: finding F18a, export refused before this point)
         dwell_kept = case["kind"] == "scan" and all(o[0] in ("frames", "frame", "cropxy", "tuple") for o in case["derive"]) and obs.get("fast_pixels", 0) >= 2
@@ -952,16 +1022,47 @@ def check_written(case, obs, raw1, want, ref_times):
                 return f"metadata: pixel time {d.get('Pixel time (s)')} != {k * case['dt'] * 1e-9} (page {i})"
     px = obs["pixelsize_um"]
     pxx, pxy = px[0], (px[1] if len(px) == 2 else px[0])
+    # ... and the pixel size of the pixels that were written, from the case alone (acquisition record x binning factors of the
+    # whole derivation chain): the object's own answer is not the only witness
+    ref = reference_pixelsize(case)
+    rx, ry = ref[0], (ref[1] if len(ref) == 2 else ref[0])
     for i, p in enumerate(raw1):
         xr, yr = p["xres"], p["yres"]
         if xr is None or yr is None or p["unit"] != 3:
             return f"calibration: resolution tags missing (page {i})"
         if not math.isclose(xr[0] / xr[1], 1e4 / pxx, rel_tol=1e-6) or not math.isclose(yr[0] / yr[1], 1e4 / pxy, rel_tol=1e-6):
             return f"calibration: resolution {xr}/{yr} does not match pixel size {px} um (page {i})"
+        if not math.isclose(xr[0] / xr[1], 1e4 / rx, rel_tol=1e-6) or not math.isclose(yr[0] / yr[1], 1e4 / ry, rel_tol=1e-6):
+            return (f"calibration: resolution tags {xr}/{yr} (page {i}) encode {1e4 * xr[1] / xr[0]:.9g} x {1e4 * yr[1] / yr[0]:.9g} um per pixel, the exported "
+                    f"pixels are {ref} um (acquired at {case['pixel_nm'][:len(ref)]} nm, derivation {case['derive']})")
+    if not same_sizes(list(px), ref):
+        return f"calibration: the exported object reports pixel size {list(px)} um, its pixels are {ref} um (acquired at {case['pixel_nm'][:len(ref)]} nm, derivation {case['derive']})"
     return None
 
 
 FIRST = " [export_tiff() as the first operation on a freshly built object]"
+SAME_DATA_STEPS = ("flip", "kbp")
+
+
+def same_but_pixel_order(case, raw_prev, raw1):
+    """the last step of the derivation mirrored the image / changed the position unit: timestamps, exposure, every description
+    entry and the calibration tags of the export are those of the export before that step; the pixels are mirrored / the same"""
+    step = case["derive"][-1][0]
+    if len(raw_prev) != len(raw1):
+        return f"{len(raw_prev)} pages before, {len(raw1)} after"
+    for i, (p, q) in enumerate(zip(raw_prev, raw1)):
+        for key in ("dt", "software", "xres", "yres", "unit", "photometric"):
+            if p[key] != q[key]:
+                return f"page {i}: {key} {p[key]!r} before, {q[key]!r} after"
+        dp, dq = json.loads(p["desc"]), json.loads(q["desc"])
+        for key in sorted(set(dp) | set(dq)):
+            a, b = dp.get(key), dq.get(key)
+            if a != b and not (isinstance(a, float) and isinstance(b, float) and math.isclose(a, b, rel_tol=1e-9)):
+                return f"page {i}: description entry {key!r} is {a!r} before, {b!r} after"
+        want = p["img"][::-1] if step == "flip" else p["img"]
+        if q["img"].dtype != want.dtype or q["img"].shape != want.shape or not np.array_equal(q["img"], want):
+            return f"page {i}: pixels are not the {'mirrored ' if step == 'flip' else ''}pixels of the export before"
+    return None
 
 
 def oracle_confocal(case, ia):
@@ -991,6 +1092,12 @@ def oracle_confocal(case, ia):
     bad = check_written(case, obs, raw1, want, ref_times)
     if bad:
         return bad
+    if case["derive"] and case["derive"][-1][0] in SAME_DATA_STEPS:
+        if "raw_prev" not in obs:
+            return f"export-refused: the object exports after {case['derive'][-1]} but not before it: {obs.get('error_prev')}"
+        bad = same_but_pixel_order(case, obs["raw_prev"], raw1)
+        if bad:
+            return f"derived-metadata: {case['derive'][-1][0]} changes only the {'order of the pixels' if case['derive'][-1][0] == 'flip' else 'position unit'}, but the export differs from the export of the object before it (derivation {case['derive']}): {bad}"
     # the same clauses on the file written by an untouched twin (export first, queries never), and written again by it
     if "raw0" not in obs or "raw0b" not in obs:
         return f"export-refused: the queried object exports fine, but export raised {obs.get('error0')}" + FIRST
@@ -1008,6 +1115,9 @@ def oracle_confocal(case, ia):
         return "reopen: ImageStack(file).get_image() differs from the written pages"
     if obs["re_dead"] != dead or obs["re_exp"] != exp:
         return f"reopen: frame ranges {obs['re_dead'][:2]} / {obs['re_exp'][:2]} != {dead[:2]} / {exp[:2]}"
+    bad = stack_bounds_clause(obs, "re_", "the reopened export")
+    if bad:
+        return "reopen: " + bad
     if "raw3" not in obs:
         return f"re-export: {obs.get('error2')}"
     raw2, raw3 = obs["raw2"], obs["raw3"]
@@ -1033,7 +1143,7 @@ def write_pages(path, datetimes, software, descriptions, shape=(1, 2)):
     with tifffile.TiffWriter(path) as tif:
         for dt, d in zip(datetimes, descriptions):
             tif.write(
-                np.ones(shape, dtype=np.uint8), description=json.dumps(d, indent=4), software=software, metadata=None,
+                np.ones(shape, dtype=np.uint8), description=d if isinstance(d, str) else json.dumps(d, indent=4), software=software, metadata=None,
                 contiguous=False, photometric="minisblack", extratags=((306, "s", len(dt), dt, False),),
             )
 
@@ -1094,7 +1204,7 @@ def mixin_direct(case, obs):
         raw = read_raw(p1)
         obs["raw"] = raw
         a1 = "ok " + enc_ratlist([x for p in raw for x in arr_rats(p["img"])])
-        a2 = enc_list([ord(ch) for ch in raw[0]["dt"]])
+        a2 = enc_list([ord(ch) for ch in raw[0]["dt"]]) if raw else "no-pages"
         try:
             parse = private("lumicks.pylake.detail.widefield", "_get_page_timestamps")
             if parse is not None:
@@ -1146,7 +1256,7 @@ def mixin_public_cast(case, obs):
         if len(img) != 12 * frames or img[:m] != vals or any(x != 0 for x in img[m:]):
             return "?"
         try:
-            obj.export_tiff(p, dtype=DT_NP[case["dtype"]], clip=case["clip"])
+            obj.export_tiff(p, dtype=DT_NP[case["dtype"]], **clip_kw(case))
         except Exception as e:
             obs["pub_error"] = repr(e)
             return errname(e)
@@ -1236,6 +1346,8 @@ def oracle_mixin(case, ia):
             got = [x for p in obs["raw"] for x in arr_rats(p["img"])]
             if got != want:
                 bad = next((i for i, (g, w_) in enumerate(zip(got, want)) if g != w_), -1)
+                if bad < 0:
+                    return f"pixels: {len(got)} values written for {len(want)} values in {len(obs['raw'])} pages ({case['dtype']} clip={case['clip']})"
                 return f"pixels: value #{bad} ({vals[bad]}) written as {got[bad]}, expected {want[bad]} for {case['dtype']} clip={case['clip']}"
             for i, p in enumerate(obs["raw"]):
                 a, b = case["dead"][i]
@@ -1261,6 +1373,8 @@ def oracle_mixin(case, ia):
             got = obs["pub_flat"]
             if got[: len(want)] != want:
                 bad = next((i for i, (g, w_) in enumerate(zip(got, want)) if g != w_), -1)
+                if bad < 0:
+                    return f"pixels: {len(got)} values written for {len(want)} values ({case['dtype']} clip={case['clip']})" + via
                 return f"pixels: value #{bad} ({vals[bad]}) written as {got[bad]}, expected {want[bad]} for {case['dtype']} clip={case['clip']}" + via
             if any(x != 0 for x in got[len(want):]):
                 return f"pixels: an empty pixel (0 photons) was written as a non-zero value for {case['dtype']} clip={case['clip']}" + via
@@ -1292,15 +1406,40 @@ def f64_of(tok):
     return float.fromhex(tok)
 
 
-def exposures_reopened(path):
-    """stop - start of frame_timestamp_ranges(include_dead_time=False) of ImageStack(file): TiffFrame.exposure_timestamp_range"""
+def exposures_reopened(path, into=None, prefix=""):
+    """stop - start of frame_timestamp_ranges(include_dead_time=False) of ImageStack(file): TiffFrame.exposure_timestamp_range;
+    `into`: also note the stack's own start / stop (ImageStack.start / .stop: TiffFrame.start / .stop of the first / last frame)
+    and the frame ranges with dead time"""
     from lumicks.pylake import ImageStack
 
     st = ImageStack(path)
     try:
-        return [int(b) - int(a) for a, b in st.frame_timestamp_ranges(include_dead_time=False)]
+        rr = [(int(a), int(b)) for a, b in st.frame_timestamp_ranges(include_dead_time=False)]
+        if into is not None:
+            into[prefix + "exp"] = rr
+            into[prefix + "dead"] = [(int(a), int(b)) for a, b in st.frame_timestamp_ranges(include_dead_time=True)]
+            into[prefix + "start"], into[prefix + "stop"] = int(st.start), int(st.stop)
+        return [b - a for a, b in rr]
     finally:
         st.close()
+
+
+# descriptions of the source pages of an exposure case: Bluelake's JSON, or a file that carries no (JSON) metadata at all - another
+# program's TIFF; pylake opens those with "File does not contain metadata. Only raw data is available" and reads the DateTime tags
+SOURCE_DESCRIPTIONS = {"json": {"Camera": "verif"}, "text": "acquired with another program; not JSON", "empty": "", "emptyjson": {}}
+
+
+def stack_bounds_clause(obs, prefix, what):
+    """the stack's start is the start of its first frame, its stop the stop of its last frame (the text does not say which of
+    the two stops - with or without dead time - so either is accepted)"""
+    if prefix + "start" not in obs:
+        return None
+    dead, exp = obs[prefix + "dead"], obs[prefix + "exp"]
+    if obs[prefix + "start"] != dead[0][0] or obs[prefix + "start"] != exp[0][0]:
+        return f"timestamps: {what} starts at {obs[prefix + 'start']}, its first frame at {dead[0][0]} / {exp[0][0]}"
+    if obs[prefix + "stop"] not in (dead[-1][1], exp[-1][1]):
+        return f"timestamps: {what} stops at {obs[prefix + 'stop']}, its last frame at {exp[-1][1]} (exposure) / {dead[-1][1]} (with dead time)"
+    return None
 
 
 def impl_exposure(case):
@@ -1320,7 +1459,8 @@ def impl_exposure(case):
             if es:
                 try:
                     dts = [f"{a0 + 10 * i}:{a0 + 10 * i + e}" for i, e in enumerate(es)]
-                    write_pages(p1, dts, "Bluelake verif", [{"Camera": "verif"}] * len(es))
+                    write_pages(p1, dts, "Bluelake verif", [SOURCE_DESCRIPTIONS[case.get("desc", "json")]] * len(es))
+                    obs["src_exposures"] = exposures_reopened(p1, obs, "src_")
                     st = ImageStack(p1)
                     try:
                         st.export_tiff(p2)
@@ -1331,7 +1471,7 @@ def impl_exposure(case):
                     obs["written_dt"] = [pg["dt"] for pg in raw]
                     out.append(enc_ratlist([Fraction(float(x)) for x in obs["written"]]))
                     try:
-                        obs["reread"] = exposures_reopened(p2)
+                        obs["reread"] = exposures_reopened(p2, obs, "re_")
                         out.append(enc_list(obs["reread"]))
                     except Exception as e:
                         obs["reread_error"] = repr(e)
@@ -1370,7 +1510,17 @@ def oracle_exposure(case, ia):
     es, ms = case["e"], [f64_of(t) for t in case["ms"]]
     if es:
         if "written" not in obs:
+            if "src_exposures" in obs:
+                return (f"export-refused: a camera TIFF ({case.get('desc', 'json')} description) that ImageStack opens and reads "
+                        f"(exposures {obs['src_exposures'][:4]}) could not be exported: {obs.get('write_error')}")
             return f"export-refused: a readable camera TIFF could not be opened / exported: {obs.get('write_error')}"
+        if obs["src_exposures"] != es:
+            return f"exposure: source pages spanning {es} ns (no exposure key) are read as {obs['src_exposures']} ns"
+        bad = stack_bounds_clause(obs, "src_", "the source stack") or stack_bounds_clause(obs, "re_", "the reopened export")
+        if bad:
+            return bad
+        if "re_start" in obs and all(abs(e) <= EXPOSURE_EXACT for e in es) and (obs["re_start"], obs["re_stop"]) != (obs["src_start"], obs["src_stop"]):
+            return f"timestamps: the stack spans {obs['src_start']}..{obs['src_stop']}, the reopened export {obs['re_start']}..{obs['re_stop']}"
         w = obs["written"]
         if len(w) != len(es):
             return f"selection: {len(w)} pages written for {len(es)} pages"
@@ -1396,8 +1546,11 @@ def oracle_exposure(case, ia):
     return None
 
 
-def exposure_case(es, ms=(), start=None):
-    return {"kind": "exposure", "start": bt.T0 if start is None else start, "e": [int(e) for e in es], "ms": [float(x).hex() for x in ms]}
+def exposure_case(es, ms=(), start=None, desc="json"):
+    c = {"kind": "exposure", "start": bt.T0 if start is None else start, "e": [int(e) for e in es], "ms": [float(x).hex() for x in ms]}
+    if desc != "json":
+        c["desc"] = desc  # the source pages carry no JSON metadata (SOURCE_DESCRIPTIONS)
+    return c
 
 
 # ------------------------------------------------------------------ glue kind (export_tiff as a whole, hooks of any lengths)
@@ -1687,6 +1840,9 @@ def impl_align(case):
                 obs["error"] = repr(e)
                 return [errname(e), errname(e)]
             obs["raw2"], obs["raw3"] = raw2, raw3
+            if not raw2 or not raw3:
+                obs["error"] = "an export wrote no pages"
+                return ["no-pages", "no-pages"]
             k2, k3 = list(json.loads(raw2[0]["desc"]).keys()), list(json.loads(raw3[0]["desc"]).keys())
             obs["k2"], obs["k3"] = k2, k3
             return [enc_keys(k2), enc_keys(k3)]
@@ -1992,6 +2148,11 @@ def tags(case, r):
             t["finding_class"] = "line_ranges_one_line_kymo"
     elif k == "stack":
         t["outcome"] = ans if not ans.startswith("[") else "ok"
+    elif k == "exposure":
+        t["desc"] = case.get("desc", "json")
+        t["outcome"] = ans if not ans.startswith("[") else "ok"
+        if t["desc"] != "json" and "src_exposures" in obs and "written" not in obs and "channel_order" in obs.get("write_error", ""):
+            t["finding_class"] = "export_without_metadata"
     return t
 
 
@@ -2339,6 +2500,10 @@ def cases(tier, rng):
     yield dict(exposure_case([2252445244112521, 10**15 + 1, 2**53 - 1, 2**53 + 1], ms=[2**-20, 2**-30, 0.1, 1 / 3]), stream="small-scope")
     yield dict(exposure_case([2**62, 2**62 + 2**61 - 12345, 2**60 + 1], ms=[1e9, 123456.789, 5e-7], start=0), stream="small-scope")
     yield dict(exposure_case([], ms=[0.0, 5e-7, 1.5e-6, 2.5e-6, 40.0, 0.0128, 1e-7, 4.9999999e-7]), stream="small-scope")
+    # source files without (JSON) metadata: text / empty description, empty JSON object; 1 and several pages
+    for desc in ("text", "empty", "emptyjson"):
+        for es_ in ([40_000_000], [12_800, 12_801, 999_999]):
+            yield dict(exposure_case(es_, desc=desc), stream="small-scope")
 
     # ---------------- glue: export_tiff as a whole; hooks returning n frames, m ranges, l exposure ranges
     # (the hooks of one object agree about the number of frames: n frames, n ranges, n exposure ranges - what export_tiff does
@@ -2420,6 +2585,18 @@ def cases(tier, rng):
         yield dict(confocal_case("kymo", 4, None, 4, 2, 1, 2, 0, 1, None, 90, "u8", True, derive=d), stream="small-scope")
     for lines in (1, 2):
         yield dict(confocal_case("kymo", 3, None, lines, 2, 1, 2, 0, 0, None, 5, "f32", False), stream="small-scope")
+    # derivations of derivations: every ordered pair of the kymograph operations (what the first one established - binned pixel
+    # size, cropped extent, mirrored image, position unit - must survive the second, which rebuilds the object through a copy),
+    # and the triples around binning; 6 pixels per line so that crop -> bin and bin -> crop both leave >= 2 pixels
+    line6 = (6 * 2 + 2) * 12800
+    kymo_alphabet = [["lines", line6, None], ["crop", "1/10", "1/2"], ["flip"], ["down", 2, "mean"], ["down", 3, "sum"], ["kbp", "12"]]
+    chains = [[a, b] for a in kymo_alphabet for b in kymo_alphabet]
+    chains += [[["kbp", "12"]], [["down", 2, "sum"], ["flip"], ["flip"]], [["down", 2, "sum"], ["flip"], ["crop", "0", "2/5"]],
+               [["crop", "1/10", "1/2"], ["down", 2, "mean"], ["flip"]], [["down", 3, "mean"], ["kbp", "12"], ["flip"]],
+               [["lines", line6, None], ["down", 2, "sum"], ["flip"]], [["flip"], ["down", 2, "mean"], ["down", 1, "sum"], ["flip"]]]
+    for ci, d in enumerate(chains):
+        fast, dtype, level, clip = ((0, "f32", 50, False), (1, "u16", 90, True))[ci % 2]
+        yield dict(confocal_case("kymo", 6, None, 4, 2, 1, 2, 0, fast, None, level, dtype, clip, derive=d, pixel_nm=((100.0, 125.0, 80.0)[ci % 3], 0.0)), stream="small-scope")
 
     # ---------------- seeded random
     r = rng.fork("c18-random")
@@ -2450,6 +2627,12 @@ def cases(tier, rng):
                     [["crop", str(Fraction(sub.randint(0, P), 10)), str(Fraction(sub.randint(1, P + 1), 10))]] if c["pixel_nm"][0] == 100.0 else [["flip"]],
                     [["flip"]], [["down", sub.randint(1, 3), sub.choice(["mean", "sum"])]]]
             c["derive"] = sub.choice(ders)
+            # a derivation of a derivation (each step goes through a copy of the object before it): up to three steps
+            more = sub.randint(0, 9)
+            for _ in range(0 if (not c["derive"] or more < 5) else 1 if more < 8 else 2):
+                c["derive"] = c["derive"] + [sub.choice([["flip"], ["flip"], ["down", sub.randint(1, 3), sub.choice(["mean", "sum"])], ["kbp", str(sub.randint(1, 40))],
+                                                         ["crop", str(Fraction(sub.randint(0, 2), 10)), str(Fraction(sub.randint(3, 2 * P), 10))],
+                                                         ["lines", lt * sub.randint(0, lines - 1), None]])]
         else:
             fast, slow = sub.choice([(0, 1), (1, 0), (0, 2), (1, 2), (2, 1)])
             frames = sub.randint(1, 5)
@@ -2612,6 +2795,7 @@ def extra_coverage(results):
                 ops_n[o[0]] = ops_n.get(o[0], 0) + 1
         if k == "exposure":
             bump(expo, f"pages_per_file:{len(c['e'])}")
+            bump(expo, f"source_description:{c.get('desc', 'json')}")
             for e in c["e"]:
                 cls = ("zero" if e == 0 else "negative" if e < 0 else "1..1e4" if e <= 10**4 else "..1e9" if e <= 10**9 else "..1e15-1e6" if e < EXPOSURE_EXACT - 10**6
                        else "within 1e6 of the bound 1e15" if e <= EXPOSURE_EXACT else "beyond the bound, < 2^53" if e < 2**53 else ">= 2^53 (int64 -> float64 rounds)")
@@ -2631,6 +2815,12 @@ def extra_coverage(results):
         if k in ("kymo", "scan"):
             for o in c["derive"]:
                 derived[o[0]] = derived.get(o[0], 0) + 1
+            bump(derived, f"chain_length:{len(c['derive'])}")
+            if "raw1" in c.get("_obs", {}):
+                for o1, o2 in zip(c["derive"], c["derive"][1:]):
+                    bump(derived, f"exported after {o1[0]} -> {o2[0]}")
+                if "raw_prev" in c["_obs"]:
+                    bump(derived, "compared with the export before the last step (flip / kbp)")
             if "derive_error" in c.get("_obs", {}):
                 derived["(derivation refused, nothing exported)"] = derived.get("(derivation refused, nothing exported)", 0) + 1
     unobserved = sum(1 for r in results for a in r["impl"] if a == "?")
